@@ -213,6 +213,8 @@ def equal_cost_shortcut(ctx, clause: str):
         env.update(ref=frac_array([[1, 2], [3, 4]]), hyp=frac_array([[1, 2], [3, 4]]), eos=None, include_eos=False, batch_first=False,
                    ins_cost=c3[0], del_cost=c3[1], sub_cost=c3[2], warn=False, return_mistakes=rm)
         kind, val = it.run(f.node, env)
+        if kind == "return":
+            return env, f.node  # (the whole kernel was inside the fragment: the state at its end)
         if kind != "stopped":
             raise NotEvaluable(f"the walk ended with {kind} before the dynamic programme")
         late = [n for n in own_nodes(f.node) if isinstance(n, ast.Name) and isinstance(n.ctx, ast.Store)
@@ -596,10 +598,10 @@ def length_table(ctx, clause: str):
                     env.update(ref=ref.T if bf else ref, hyp=hyp.T if bf else hyp, eos=eos, include_eos=inc, batch_first=bf,
                                ins_cost=1.0, del_cost=1.0, sub_cost=1.0, warn=False)
                     kind, val = it.run(f.node, env)
-                    if kind != "stopped":
+                    if kind not in ("stopped", "return"):
                         raise NotEvaluable(f"the walk ended with {kind} before the dynamic programme")
                     late = [n for n in own_nodes(f.node) if isinstance(n, ast.Name) and isinstance(n.ctx, ast.Store) and n.id in lens.values()
-                            and n.lineno >= val.lineno]
+                            and n.lineno >= val.lineno] if kind == "stopped" else []
                     if late:
                         raise NotEvaluable("a length vector is assigned after the point the walk reached")
                     n_rows += 1
@@ -624,3 +626,139 @@ def length_table(ctx, clause: str):
            (f"with eos={bad[1]}, include_eos={bad[2]}, batch_first={bad[3]} the kernel works with {bad[0]} lengths {bad[4]} for sequences whose "
             f"first eos is at {'1, none, 0' if bad[0] == 'ref' else '0, 1, none'}; documented: {bad[5]} (the index of the first eos, plus one under "
             f"include_eos only where there is an eos; the extent otherwise)") if bad else "", rel, f.line, sample=dict(rows=n_rows))
+
+
+def _lev_oracle(r, h, ic, dc, sc):
+    """(cost, fewest edits, most edits) of the minimum-cost alignments of hypothesis h to reference r, and the same for every prefix
+    of h: tables[i] is the triple for h[:i]."""
+    R, H = len(r), len(h)
+    D = [[None] * (R + 1) for _ in range(H + 1)]
+    for i in range(H + 1):
+        for j in range(R + 1):
+            if i == 0 and j == 0:
+                D[i][j] = (0, 0, 0)
+                continue
+            cands = []
+            if i > 0:
+                c, lo, hi = D[i - 1][j]
+                cands.append((c + ic, lo + 1, hi + 1))
+            if j > 0:
+                c, lo, hi = D[i][j - 1]
+                cands.append((c + dc, lo + 1, hi + 1))
+            if i > 0 and j > 0:
+                c, lo, hi = D[i - 1][j - 1]
+                same = r[j - 1] == h[i - 1]
+                cands.append((c + (0 if same else sc), lo + (0 if same else 1), hi + (0 if same else 1)))
+            best = min(c for c, _, _ in cands)
+            D[i][j] = (best, min(lo for c, lo, _ in cands if c == best), max(hi for c, _, hi in cands if c == best))
+    return [D[i][R] for i in range(H + 1)]
+
+
+def kernel_value_table(ctx, clause: str, what: str):
+    """The batched kernel interpreted COMPLETELY over exact values (sa/interp.py + sa/teval.py; nothing is run; `_lens_from_eos` by its
+    meaning) and compared, pair by pair, with a plain per-pair dynamic programme:
+
+      what='distance'  edit_distance mode: the weighted Levenshtein distance of the sequences up to (and, under include_eos, including)
+                       their first eos; divided by the reference length under norm (an empty reference scoring 0 / 1 for an empty /
+                       non-empty hypothesis); and the per-prefix form (one distance per hypothesis prefix, padding beyond its length)
+      what='count'     error-rate mode: the number of edits along a minimum-cost alignment - any value between the fewest and the
+                       most edits among the minimum-cost alignments is right
+
+    for four cost triples (unit, unequal integers, equal non-unit, fractions), both layouts, eos given / not given, include_eos on / off,
+    over a batch of pairs with eos in the middle, at the start (an empty sequence), absent, and junk after the eos. What the head of
+    the kernel and the recurrence look like does not matter; a wrong row is a counterexample."""
+    import numpy as np
+    from fractions import Fraction as Fr
+    from sa.interp import Interp
+    from sa.inteval import NotEvaluable
+    from sa.teval import frac_array
+    col, pkg = ctx.col, ctx.pkg
+    rel = pkg.module(MOD).relname
+    f = pkg.func(f"{MOD}::{KERNEL}")
+    where = f"{rel}::{KERNEL}"
+    EOS, PAD = 9, -7
+    refs = [[1, 2, 3, 1], [2, 9, 5, 5], [9, 1, 1, 1], [3, 3, 9, 2], [1, 2, 1, 2]]
+    hyps = [[1, 3, 3], [2, 2, 9], [1, 9, 4], [9, 3, 3], [2, 1, 2]]
+
+    def first_eos(a, eos, dim):
+        a = np.moveaxis(a, dim, 0)
+        out = []
+        for j in range(a.shape[1]):
+            c_ = [int(x) for x in a[:, j]]
+            out.append(c_.index(eos) if eos in c_ else len(c_))
+        return frac_array(out)
+
+    def cut(seq, eos, inc):
+        if eos is None or eos not in seq:
+            return list(seq)
+        k = seq.index(eos)
+        return list(seq[:k + 1]) if inc else list(seq[:k])
+    bad, n_rows = None, 0
+    try:
+        for costs in ((Fr(1), Fr(1), Fr(1)), (Fr(1), Fr(2), Fr(3)), (Fr(2), Fr(2), Fr(2)), (Fr(1, 2), Fr(1), Fr(3, 2))):
+            for eos in (EOS, None):
+                for inc in ((True, False) if eos is not None else (False,)):
+                    for bf in (False, True):
+                        for norm in (False, True):
+                            for prefix in ((False, True) if what == "distance" else (False,)):
+                                holder = {}
+
+                                def leaf(x, env):
+                                    if isinstance(x, ast.Call) and call_name(x) == "_lens_from_eos":
+                                        it_ = holder["it"]
+                                        b_ = dict(zip(("tok", "eos", "dim"), x.args))
+                                        b_.update({k.arg: k.value for k in x.keywords})
+                                        return first_eos(it_.eval(b_["tok"], env), it_.eval(b_["eos"], env), int(it_.eval(b_["dim"], env)))
+                                    return None
+                                it = Interp(leaf=leaf, tensors=True)
+                                holder["it"] = it
+                                env = {a.arg: None for a in f.node.args.args}
+                                for a_, d_ in zip(reversed(f.node.args.args), reversed(f.node.args.defaults)):
+                                    if isinstance(d_, ast.Constant):
+                                        env[a_.arg] = d_.value
+                                ref, hyp = frac_array(refs).T, frac_array(hyps).T  # (R, N), (H, N)
+                                env.update(ref=ref.T if bf else ref, hyp=hyp.T if bf else hyp, eos=eos, include_eos=inc, batch_first=bf,
+                                           ins_cost=costs[0], del_cost=costs[1], sub_cost=costs[2], warn=False, norm=norm, padding=PAD,
+                                           return_prf_dsts=prefix, return_mistakes=(what == "count"), return_mask=False, exclude_last=False)
+                                kind, got = it.run(f.node, env)
+                                n_rows += 1
+                                if kind != "return" or not hasattr(got, "shape"):
+                                    if bad is None:
+                                        bad = (costs, eos, inc, bf, norm, prefix, f"{kind} {got}", None, None)
+                                    continue
+                                g = np.asarray(got, dtype=object)
+                                if prefix and bf:
+                                    g = g.T
+                                for n_, (r_, h_) in enumerate(zip(refs, hyps)):
+                                    rs, hs = cut(r_, eos, inc), cut(h_, eos, inc)
+                                    tabs = _lev_oracle(rs, hs, *costs)
+                                    div = (lambda v_, hl: v_) if not norm else (lambda v_, hl: (v_ / len(rs)) if rs else Fr(1 if hl > 0 else 0))
+                                    if what == "distance":
+                                        if prefix:
+                                            want_col = [div(tabs[k_][0], k_) if k_ <= len(hs) else Fr(PAD) for k_ in range(len(h_) + 1)]
+                                            ok = [x for x in g[:, n_].tolist()] == want_col
+                                            shown = (g[:, n_].tolist(), want_col)
+                                        else:
+                                            w_ = div(tabs[len(hs)][0], len(hs))
+                                            ok = g[n_] == w_
+                                            shown = (g[n_], w_)
+                                    else:
+                                        lo, hi = tabs[len(hs)][1], tabs[len(hs)][2]
+                                        lo_, hi_ = div(Fr(lo), len(hs)), div(Fr(hi), len(hs))
+                                        ok = lo_ <= g[n_] <= hi_
+                                        shown = (g[n_], (lo_, hi_))
+                                    if not ok and bad is None:
+                                        bad = (costs, eos, inc, bf, norm, prefix, shown[0], shown[1], (r_, h_))
+    except NotEvaluable as e:
+        return False  # (outside the interpreted fragment: the other clauses of the property stand alone)
+    col.floor(f"kernel_table_rows[{what}]", n_rows, 40)
+
+    def _s(v):
+        return str([str(x) for x in v] if isinstance(v, (list, tuple)) else v)[:120]
+    name = "levenshtein-table" if what == "distance" else "edit-count-table"
+    col.ob("G12", clause, f"{where}::{name}", bad is None,
+           (f"with costs (ins, del, sub) = {tuple(str(c) for c in bad[0])}, eos={bad[1]}, include_eos={bad[2]}, batch_first={bad[3]}, norm={bad[4]}"
+            f"{', per prefix' if bad[5] else ''} the kernel gives {_s(bad[6])} for reference {bad[8][0] if bad[8] else ''} and hypothesis "
+            f"{bad[8][1] if bad[8] else ''}; a plain dynamic programme over the same pair gives {_s(bad[7])}"
+            + (" (the fewest .. most edits among its minimum-cost alignments)" if what == "count" else "")) if bad else "", rel, f.line, sample=dict(rows=n_rows))
+    return True
